@@ -237,6 +237,42 @@ func init() {
 				return "same"
 			}
 			return "different"
+		case "twiceobj":
+			// replay on the SAME alignment object: the producers that leave the alignment unchanged are run from the seed,
+			// then other draws are made from another seed with other arguments, then the first run is repeated: state kept
+			// inside the object (a cached permutation, a buffer) must not change what the seed gives
+			n, L := al.NbSequences(), al.Length()
+			half := func(x int) int {
+				if x/2 < 1 {
+					return 1
+				}
+				return x / 2
+			}
+			run := func() string {
+				rand.Seed(seed)
+				parts := []string{}
+				if sm, err := al.Sample(half(n)); err == nil {
+					parts = append(parts, encRows(rowsOf(sm)))
+				}
+				if sm, err := al.RandSubAlign(half(L), true); err == nil {
+					parts = append(parts, encRows(rowsOf(sm)))
+				}
+				if sm, err := al.RandSubAlign(half(L), false); err == nil {
+					parts = append(parts, encRows(rowsOf(sm)))
+				}
+				parts = append(parts, encRows(rowsOf(al.BuildBootstrap(1.0))))
+				return strings.Join(parts, "|")
+			}
+			x := run()
+			rand.Seed(seed + 12345)
+			al.RandSubAlign(half(half(L)), false)
+			al.RandSubAlign(half(L), false)
+			al.Sample(1)
+			al.BuildBootstrap(0.5)
+			if y := run(); x != y {
+				return "different"
+			}
+			return "same"
 		}
 		return "bad-op"
 	})
